@@ -18,6 +18,7 @@ fi
 cd /verif
 VERIF_REPO="$M" VERIF_BUILD="$M/build" VERIF_REPLAY_DIR="$M/replays" VERIF_EVIDENCE_DIR="$M/evidence" bin/check "$PROP" "$TIER"
 rc=$?
+if [ -n "${KEEP_REPLAYS_DIR:-}" ] && [ -d "$M/replays" ]; then mkdir -p "$KEEP_REPLAYS_DIR"; cp "$M"/replays/*.json "$KEEP_REPLAYS_DIR"/ 2>/dev/null; fi
 if [ -d "$M/replays" ]; then
   for f in "$M"/replays/*.json; do [ -f "$f" ] && python3 - "$f" <<'PY'
 import json,sys
